@@ -142,6 +142,8 @@ def gen_program(rng, pkg, n=None, p_explicit=0.15, p_hidden=0.12, min_memento=2,
             nd["wrap_param"] = "a" if (nd["mod"] == "b" and rng.random() < 0.8) else rng.choice(WRAP_PARAMS)
         if kind == "wrapped" and nd["const"] % 2 == 0:  # (no random draw) the decorator takes an argument
             nd["deco_arg"] = nd["const"] + 1
+        if kind == "wrapped" and nd["const"] % 3 == 1:  # (no random draw) the decorator does without functools.wraps
+            nd["nowraps"] = True
         nodes.append(nd)
     # now and then one function uses two different module-level lambdas (they share a qualified name)
     if n >= 4 and rng.random() < p_lambda_pair:
@@ -454,6 +456,8 @@ def render_def(prog, i, skip_names=()):
     nd = prog["nodes"][i]
     if nd["kind"] == "lambda":
         first = ("x %s %d" % (nd["op"], nd["const"])) if not nd["swap"] else ("%d %s x" % (nd["const"], nd["op"]))
+        if nd["const"] % 2 == 0:  # (no random draw) the lambda stands on a continuation line, inside a call that wraps it
+            return "%s = functools.lru_cache(maxsize=None)(\n    lambda x: %s)\n" % (nd["name"], first)
         return "%s = lambda x: %s\n" % (nd["name"], first)
     if nd["kind"] == "product":
         if nd.get("of") is not None:  # a further product of the leader's factory
@@ -476,11 +480,11 @@ def render_def(prog, i, skip_names=()):
     elif nd["kind"] == "wrapped":
         wp = nd["wrap_param"]
         if nd.get("deco_arg") is not None:  # a decorator with an argument, which its wrapper closes over
-            L += ["def deco_%s(k_):" % nd["name"], "    def outer(fn):", "        @functools.wraps(fn)",
+            L += ["def deco_%s(k_):" % nd["name"], "    def outer(fn):"] + ([] if nd.get("nowraps") else ["        @functools.wraps(fn)"]) + [
                   "        def wrapper(%s, *rest, **kw):" % wp, "            return fn(%s, *rest, **kw) + k_" % wp,
                   "        return wrapper", "    return outer", "", "@deco_%s(%d)" % (nd["name"], nd["deco_arg"])]
         else:
-            L += ["def deco_%s(fn):" % nd["name"], "    @functools.wraps(fn)",
+            L += ["def deco_%s(fn):" % nd["name"]] + ([] if nd.get("nowraps") else ["    @functools.wraps(fn)"]) + [
                   "    def wrapper(%s, *rest, **kw):" % wp, "        return fn(%s, *rest, **kw)" % wp, "    return wrapper", "",
                   "@deco_%s" % nd["name"]]
     if nd.get("prev"):  # (the earlier definition comes before the decorators of the current one)
